@@ -16,7 +16,7 @@ func init() {
 const replPath = modPath + "/replication"
 
 func checkC05(w *World, r *Report) {
-	r.Decides = "C05 is decided in its structural part only: (a) the worker asks for (recorded leader index)+1, read from the table's leader-index lookup; (b) in the batching loop every received command is appended exactly once, the sequence is tagged with the index of the same loop element between the append and the proposal, the last element cannot leave the loop without a proposal, the sequence is cleared only after the proposal and always before the next command is appended, a failed proposal returns, and what is proposed is the marshalled sequence; (c) the leader index is written into the same batch as the data before the commit whenever one is present, and entries without one do not erase it (C03.b); (d) each shipped command carries its own index and the stream is dense, also when served from the leader's log cache (the obligations C06.a-d); (e) only the lease holder replicates (C15.c); (f) snapshot recovery loads into a fresh shard, forwards the stream's index and switches only after a successful load (C07.a, C07.c, C07.e); (g) table-set reconciliation deletes exactly follower tables absent from the leader's list and creates exactly leader tables absent from the follower's. Also: the recovery image is read from one Pebble snapshot (h)."
+	r.Decides = "C05 is decided in its structural part only: (a) the worker asks for (recorded leader index)+1, read from the table's leader-index lookup; (b) in the batching loop every received command is appended exactly once, the sequence is tagged with the index of the same loop element between the append and the proposal, the last element cannot leave the loop without a proposal, the sequence is cleared only after the proposal and always before the next command is appended, a failed proposal returns, and what is proposed is the marshalled sequence; (c) the leader index is written into the same batch as the data before the commit whenever one is present, and entries without one do not erase it (C03.b); (d) each shipped command carries its own index and the stream is dense, also when served from the leader's log cache (the obligations C06.a-d); (e) only the lease holder replicates (C15.c); (f) snapshot recovery loads into a fresh shard, forwards the stream's index and switches only after a successful load (C07.a, C07.c, C07.e); (g) table-set reconciliation deletes exactly follower tables absent from the leader's list and creates exactly leader tables absent from the follower's. Also: the recovery image is read from one Pebble snapshot (h); every entry of an apply batch and every sub-command of a SEQUENCE / batch command is visited - no loop over them is left early with success (i = C01.i)."
 	r.NotDecided = []string{"content equality at every moment, monotonicity of the recorded index, convergence and behaviour across restarts - all schedule- and history-dependent", "that dragonboat applies each proposed sequence exactly once"}
 	r.Assume = []string{"a SEQUENCE command is applied atomically with its leader index (C01.a-c)"}
 	a := w.FsmAnchors()
@@ -25,6 +25,8 @@ func checkC05(w *World, r *Report) {
 	if len(a.Problems) == 0 && a.Update != nil {
 		c05LeaderIndexAtomic(w, r, a)
 		c03Carry(w, r, a, "C05.c2", "c2-no-carry-across-entries")
+		// a replicated batch arrives as one SEQUENCE command: every sub-command of it has to be applied
+		applyLoopComplete(w, r, a, "C05.i", "i-every-entry-applied")
 	} else {
 		ob := r.Ob("C05.c1", "c1-leader-index-atomic", "state machine anchors resolve", "")
 		ob.Undecided("anchors", strings.Join(a.Problems, "; "))
